@@ -338,6 +338,35 @@ class NextStepSettled(_L2):
                                       else (True if result else a.time(h["P"][me]) >= M.until)),
         }
 
+    def native_search(self, budget):
+        for t in (3, 5, 10):
+            for consumer in ("event-based", "hybrid"):
+                yield {"native_case": {"initial_event_at": t, "until": 5, "consumer": consumer}}
+
+    def native_call(self, m):
+        case = m.get("native_case")
+        if not case or "initial_event_at" not in case:
+            return True, "symbolic counter-models of next_step_settled are not replayed (the native search is)"
+        from contracts.scheduler_native import replay_event_beyond_until
+        return replay_event_beyond_until(case)
+
+    def wait_obligations(self, it, coro, h):
+        """C05 (no wait on a condition that cannot become true): progress never exceeds `until` (advance_progress caps it),
+        so waiting for the own progress to reach a time beyond `until` -- with nothing else to wake the task but a newer
+        step -- would never end.  Outside real-time mode (no timeout)."""
+        M = self._M
+        a = M.alg
+        out = {}
+        if coro.kind != "wait":
+            return out
+        tasks = coro.kw["tasks"]
+        tasks = list(tasks) if isinstance(tasks, (list, tuple)) else [tasks.get(i) for i in range(tasks.length)] \
+            if isinstance(getattr(tasks, "length", None), int) else []
+        for i, c in enumerate(tasks):
+            if getattr(c, "kind", None) == "has_reached" and c.kw.get("shift") is None:
+                out[f"C05_awaited_progress_is_not_beyond_until#{i}"] = a.time(M.unT(c.kw["target"])) <= M.until
+        return out
+
     loops = {0: lambda c, index, v, A: TOP[0].loop_inv()}
 
     def loop_inv(self):
